@@ -72,6 +72,8 @@ def explore_c20(rng, tier, res, deep=False):
                 kind = "rawtext"
             if 56 <= i < 72:
                 kind = "blank"
+            if 72 <= i < 80:
+                kind = "dupkeys"
             q = walk_query(rng, doc, g, filters=True) if rng.random() < 0.5 else g.query()
             FALSY = [{}, [], "", 0, False, None, 0.0, -0.0]
             if i < 2 * len(FALSY):
@@ -131,6 +133,10 @@ def explore_c20(rng, tier, res, deep=False):
                 pick = (lambda xs: xs[(i - 16) % len(xs)]) if 16 <= i < 28 else rng.choice
                 q = pick([c + "$.a", "$.." + c, "$.a[" + c + "x]", "$.a" + c + "b", "$[?@.a == " + c + "x]", "$['a" + c + "']", "$.a." + c, "$[?" + c + "x]",
                                 "$[1" + c + "2]", "x" + c + "$", "$[?@.a ~" + c + "1]", "$.a[?@" + c + "@]"])
+            elif kind == "dupkeys":
+                # documents that repeat a member name: what json.load makes of them is what find() is given
+                doc_bytes = [b'{"a": 1, "a": 2}', b'{"a": {"b": 1, "b": [2]}, "a": {"b": 3}}', b'[{"k": 1, "k": null}, {"k": 2}]', b'{"a": 1, "b": 2, "a": [3], "b": {"a": 4, "a": 5}}'][(i - 72) % 4]
+                q = ["$.a", "$..b", "$[*].k", "$..a", "$", "$.*", "$..*", "$.b.a"][(i - 72) % 8]
             elif kind == "badjson":
                 doc_bytes = rng.choice([b"}}invalid", b"", b"[1,", b"{'a':1}", b"[1] x", b"nul"])
             elif kind == "bignum":
@@ -144,7 +150,7 @@ def explore_c20(rng, tier, res, deep=False):
             elif kind == "deep":
                 q = "$..*"
                 doc_bytes = json.dumps(deep_doc).encode()
-            if kind in ("bignum", "badjson", "badbytes", "deep"):
+            if kind in ("bignum", "badjson", "badbytes", "deep", "dupkeys"):
                 doc = doc_bytes.decode("utf8", "replace")[:300]  # what is reported as the document
             debug = rng.random() < 0.2
             pretty = rng.random() < 0.4
